@@ -31,13 +31,15 @@ TIMEOUT_S = 30
 # others are observed and counted.
 JUDGE_INACTIVE = True
 
-RULE = ('29 well-formed base workflows (chains, diamond, colliding names A/AA/BA/AB, same name in two stages, global/'
+RULE = ('31 well-formed base workflows (chains, diamond, colliding names A/AA/BA/AB, same name in two stages, global/'
         'stage/component/indirect/platform variables, replicate+aggregate, a DoWhile placeholder, direct and '
         'application-dependency references, default/platform blueprints, platform overrides, three "every option '
         'explicit" documents [component, blueprint, override+stage blueprint], stage options/outputs/environments, a '
         'repeating observer, all reference methods, variables used only as the index of an array access, a component '
         'named like an application dependency / like a top-level folder and consumed through stage-qualified '
-        'references, replication inherited by consumers with one- and two-digit replica names), each for every '
+        'references, replication inherited by consumers with one- and two-digit replica names, two workflows whose '
+        'variables come from a user variables file [variable_files=] with entries for all stages and per stage), each '
+        'for every '
         'platform it declares, x EVERY position of each '
         'single-fault mutation: drop component i; rename the producer of reference j (to a fresh name, name+A, A+name, '
         'name minus last letter and every other component name; consistently in references+arguments / in the '
@@ -47,7 +49,8 @@ RULE = ('29 well-formed base workflows (chains, diamond, colliding names A/AA/BA
         'call component j like replica k of every replicated component i of its stage (k=0,1,n-1 and the first free '
         'k=n; references re-spelled) so that identifiers repeat only after expansion; misspell every schema key at every nesting '
         'level (quick: 2 typos down to depth 3 and 1 below, thorough: 3 everywhere); replace every typed value/section '
-        'by two (thorough: three for numbers/booleans) values of an unambiguously wrong type; add an unknown key to '
+        'by two (thorough: three for numbers/booleans) values of an unambiguously wrong type, integer options also '
+        'by 2.5; add an unknown key to '
         'every dict whose keys the schema fixes; (thorough) set every schema option the first component does not set '
         'to a wrongly typed value; remove every variable definition that is referenced. Main document and DoWhile document are both '
         'mutated. Each mutated document is classified from the statement by the reference model (valid / broken by '
@@ -62,8 +65,13 @@ ASSUMPTIONS = [
     '"invalid-configuration error" = experiment.model.errors.ExperimentInvalidConfigurationError (or a subclass)',
     'a hang = no answer within %d s (SIGALRM timer in the worker process)' % TIMEOUT_S,
     'wrong-type values are only of an unambiguously different type: list/dict for scalars, a non-numeric non-boolean '
-    'non-variable word for numbers and booleans, a word/dict for lists, a word/list for sections; bool-for-int, '
-    'int-for-float, int-for-string and digit strings are not generated (open)',
+    'non-variable word for numbers and booleans, a word/dict for lists, a word/list for sections, a number with a '
+    'fractional part (2.5) for integers; bool-for-int, int-for-float, 2.0-for-int, numbers for strings and digit '
+    'strings are not generated (open)',
+    'user variables (variable_files=[file] of the loader): `global` entries are defined for every stage, `stages.<k>` '
+    'entries for the components of stage k only; the file is part of the mutated document set (its variable '
+    'definitions are removed one at a time, its two keys misspelt, its values mistyped). graphFromFlowIR cannot take '
+    'the file, so these bases are loaded at F only',
     '"a workflow CONTAINING an unknown option key / a wrongly typed option" is read literally (JUDGE_INACTIVE=True): a '
     'fault in a section of a platform that is not being loaded (scope "inactive") and a wrongly typed value that a '
     'higher layer overrides for every component or that belongs to a variable nobody uses (scope "ineffective") are '
@@ -96,7 +104,7 @@ ASSUMPTIONS = [
     'the model and only judged for soundness',
     'graphFromFlowIR is given the (flowir, documents) pair that package_document_load produces for the same files; '
     'a document that package_document_load itself refuses is recorded, not judged, at G',
-    'interface section, DSL 2.0, CWL and DOSINI front-ends, user variable files and instance directories are out of '
+    'interface section, DSL 2.0, CWL and DOSINI front-ends, several layered variable files and instance directories are out of '
     'scope',
 ]
 
@@ -121,16 +129,24 @@ def _load(text):
     return yaml.load(text, Loader=_LOADER)
 
 
+USERVARS_FILE = 'input/variables.yaml'     # handed to the loader as variable_files=[...]
+
+
 def dump_texts(root):
     texts = {'conf/flowir_package.yaml': _dump(root['doc'])}
     if root.get('dowhile') is not None:
         texts['conf/dowhile.yaml'] = _dump(root['dowhile'])
+    if root.get('uservars') is not None:
+        texts[USERVARS_FILE] = _dump(root['uservars'])
     return texts
 
 
 def root_from_texts(texts):
-    return {'doc': _load(texts['conf/flowir_package.yaml']),
+    root = {'doc': _load(texts['conf/flowir_package.yaml']),
             'dowhile': _load(texts['conf/dowhile.yaml']) if 'conf/dowhile.yaml' in texts else None}
+    if USERVARS_FILE in texts:
+        root['uservars'] = _load(texts[USERVARS_FILE])
+    return root
 
 
 def write_pkg(d, texts, files):
@@ -173,9 +189,11 @@ def observe(cfg, wg):
 def load_factory(pkg, platform):
     import experiment.model.conf
     import experiment.model.errors
+    uv = os.path.join(pkg, USERVARS_FILE)
+    kw = {'variable_files': [uv]} if os.path.exists(uv) else {}
     try:
         cfg = experiment.model.conf.ExperimentConfigurationFactory.configurationForExperiment(
-            pkg, platform=platform, validate=True, primitive=False)
+            pkg, platform=platform, validate=True, primitive=False, **kw)
     except experiment.model.errors.ExperimentInvalidConfigurationError as e:
         return ('rejected', type(e).__name__, _msg(e), None)
     except Exception as e:
@@ -255,6 +273,11 @@ def judge(col, case, scratch, all_entries=True):
     tag = 'broken[%s%s]' % ('+'.join(faults), where) if faults else ('open[%s]' % '+'.join(an.grey_classes())[:60] if verdict == 'grey' else 'valid')
     f_result = None
     for entry, loader in (('F', load_factory), ('G', load_graph)):
+        if entry == 'G' and USERVARS_FILE in texts:
+            # graphFromFlowIR has no way to take the user's variables
+            shutil.rmtree(d, ignore_errors=True)
+            col.count('G_not_applicable_user_variables_file')
+            break
         if entry == 'G' and not all_entries and kind in BULK and f_result == 'rejected':
             # quick tier: G is only judged for soundness, i.e. when it accepts; for the bulk key/type families it is
             # loaded when F did not cleanly reject (thorough loads G for every case)
